@@ -82,6 +82,9 @@ class Pidfile(object):
                 try:
                     os.kill(wpid, 0)
                     return wpid
+                except OverflowError:
+                    # not a pid at all: the file is garbled
+                    return
                 except OSError as e:
                     if e.args[0] == errno.ESRCH:
                         return
